@@ -927,13 +927,23 @@ func unescapeHTML(i string) string {
 	return htmlUnescaper.Replace(i)
 }
 
+// maxLineSize is the number of bytes of the longest line, terminator excluded, the scanner accepts
+const maxLineSize = bufio.MaxScanTokenSize - 1
+
 func newScanner(i io.Reader) *bufio.Scanner {
 	var scanner = bufio.NewScanner(i)
+	// The longest line is decided here rather than by the scanner running out of room, which depends on the
+	// line terminator and on whether the last read comes with io.EOF
+	scanner.Buffer(nil, maxLineSize+2)
 	scanner.Split(func(data []byte, atEOF bool) (advance int, token []byte, err error) {
 		if atEOF && len(data) == 0 {
 			return 0, nil, nil
 		}
-		if i := bytes.IndexAny(data, "\r\n"); i >= 0 {
+		i := bytes.IndexAny(data, "\r\n")
+		if i > maxLineSize || (i < 0 && len(data) > maxLineSize) {
+			return 0, nil, bufio.ErrTooLong
+		}
+		if i >= 0 {
 			if data[i] == '\n' {
 				// We have a line terminated by single newline.
 				return i + 1, data[0:i], nil
